@@ -94,8 +94,9 @@ def regcheck_factors():
     return FACTORS
 
 
-def posc_history():
-    """The top-level AddUnitBase / AddUnit / AddCategory calls FillUnitDatabaseWithPosc makes, recorded by wrapping the instance."""
+def posc_history(which="default"):
+    """The top-level AddUnitBase / AddUnit / AddCategory calls a shipped filler makes, recorded by wrapping the instance.
+    which: 'default' (POSC with categories), 'posc_nocat' (POSC without categories), 'simple' (FillSimple)."""
     from barril.units import UnitDatabase
 
     db = UnitDatabase()
@@ -130,7 +131,12 @@ def posc_history():
         return catargs(category, quantity_type or NONE, list(valid_units) if valid_units is not None else None, bool(override), default_unit or NONE,
                        iv(default_value), iv(min_value), iv(max_value), bool(is_min_exclusive), bool(is_max_exclusive), from_category or NONE)
     wrap("AddCategory", cat)
-    UnitDatabase.FillUnitDatabaseWithPosc(db)
+    if which == "default":
+        UnitDatabase.FillUnitDatabaseWithPosc(db)
+    elif which == "posc_nocat":
+        UnitDatabase.FillUnitDatabaseWithPosc(db, fill_categories=False)
+    else:
+        UnitDatabase.FillSimple(db)
     return db, events
 
 
